@@ -96,6 +96,36 @@ func genC20(r *Rng, tier string, emit func(string, Tok)) {
 		// a reader that cannot seek: Rewind reports -1 and the stream simply continues
 		emit("rewind-plain", scenario{kind: r.Intn(2) * 2, optSize: 188, fault: -1, data: data, ops: []int{1, 1, 2, 3}}.tok())
 	}
+	// a unit of three and of four sections (so that two or three data wait in the buffer): a Rewind after every number of
+	// calls, exhaustively
+	for k := 0; k < scale(tier, 2, 10); k++ {
+		pmt := &refSection{TableID: 2, Ext: uint16(1 + k), Version: byte(r.Intn(32)), PCRPID: 0x101, Streams: []refStream{{Type: 0x1b, PID: 0x101}}}
+		pat := &refSection{TableID: 0, Ext: 7, Version: 1, Programs: []refProgram{{Number: uint16(1 + k), PID: 0x40}}}
+		var d []byte
+		ccs := map[uint16]*byte{0: new(byte), 0x40: new(byte), 0x101: new(byte)}
+		put := func(u *refUnit) {
+			for _, p := range packetiseUnit(r, u, 0, ccs[u.PID], false) {
+				d = append(d, p.encode()...)
+			}
+		}
+		put(refPSI(r, 0, []*refSection{pat}))
+		secs := []*refSection{pmt, pmt, pmt}
+		if k%2 == 1 {
+			secs = append(secs, pmt)
+		}
+		put(refPSI(r, 0x40, secs))
+		put(refMuxPES(r, 0x101, 0xe0, 100, false))
+		put(refPSI(r, 0x40, secs))
+		put(refMuxPES(r, 0x101, 0xe0, 50, false))
+		total := len(runScenario(scenario{kind: 1, optSize: 188, fault: -1, data: d, ops: []int{3}}).results)
+		for calls := 0; calls <= total; calls++ {
+			ops := []int{}
+			for j := 0; j < calls; j++ {
+				ops = append(ops, 1)
+			}
+			emit("rewind-inside-batch", scenario{kind: 1, optSize: []int{188, 0}[calls%2], fault: -1, data: d, ops: append(append(ops, 2), 3)}.tok())
+		}
+	}
 	// long histories of rewinds on streams whose PAT names two PMT PIDs in two sections, or two programs on one PMT
 	// PID, repeated several times per pass: 130..260 rewinds after one to three calls each, or after whole passes
 	for k := 0; k < scale(tier, 6, 40); k++ {
@@ -979,7 +1009,7 @@ func genC06(r *Rng, tier string, emit func(string, Tok)) {
 		if len(own) < 24 {
 			continue
 		}
-		burst := []int{15, 15, 14, 13}[r.Intn(4)]
+		burst := []int{15, 15, 15, 14, 15, 13}[k%6] // mostly the repeated-counter case, on clear and scrambled PIDs alike
 		start := r.Range(1, len(own)-burst-2)
 		drop := map[int]bool{}
 		for _, i := range own[start : start+burst] {
